@@ -37,6 +37,7 @@ type LoopContract struct {
 	Ordinal    int
 	Invariants []*Clause
 	Decreases  *Clause
+	ExitAsserts []*Clause
 	Line       int
 }
 
@@ -97,7 +98,7 @@ type ContractSet struct {
 	Assumes   []string // textual list of assumed contracts (for evidence)
 }
 
-var keywordRe = regexp.MustCompile(`^(func|assume|lemma|ghost|pred|spec|requires|ensures|modifies|panics_if|let|loop|invariant|decreases|props|encoder|nopanic|bounded|assert|opt)\b`)
+var keywordRe = regexp.MustCompile(`^(func|assume|lemma|ghost|pred|spec|requires|ensures|modifies|panics_if|let|loop|invariant|decreases|exit_assert|props|encoder|nopanic|bounded|assert|opt)\b`)
 
 // readContractFile extracts //@ lines and parses them.
 func (cs *ContractSet) readContractFile(path, pkgPath string) error {
@@ -276,6 +277,15 @@ func (cs *ContractSet) readContractFile(path, pkgPath string) error {
 					return err
 				}
 				curLoop.Invariants = append(curLoop.Invariants, splitConj(c)...)
+			case "exit_assert":
+				if curLoop == nil {
+					return fmt.Errorf("%s:%d: exit_assert outside loop", path, l.n)
+				}
+				c, err := mk(rest)
+				if err != nil {
+					return err
+				}
+				curLoop.ExitAsserts = append(curLoop.ExitAsserts, c)
 			case "decreases":
 				if curLoop == nil {
 					return fmt.Errorf("%s:%d: decreases outside loop", path, l.n)
